@@ -47,6 +47,61 @@ def _make_forward(B):
     return forward
 
 
+def _composites():
+    """stand-alone conditional distributions of the composite families (a wrapped inner Gaussian)"""
+    import cuqi
+    def reg():
+        return cuqi.implicitprior.RegularizedGaussian(np.array([0.5, -0.5]), cov=lambda s: 1.0 / s, constraint="nonnegativity", name="w")
+    def con():
+        return cuqi.implicitprior.ConstrainedGaussian(lambda s: np.array([1.0, 2.0]) * s, cov=2.0, constraint="box", lower_bound=0.0, upper_bound=5.0,
+                                                      geometry=2, name="w")
+    def lgn():
+        return cuqi.distribution.Lognormal(lambda s: np.array([0.1, 0.2]) * s, np.array([0.5, 0.5]), name="w")
+    def rgm():
+        return cuqi.implicitprior.RegularizedGMRF(np.zeros(3), prec=lambda s: s, constraint="nonnegativity", name="w")
+    return [("RegularizedGaussian", reg), ("ConstrainedGaussian", con), ("Lognormal", lgn), ("RegularizedGMRF", rgm)]
+
+
+def _probe_composite(o):
+    """behaviour of a composite distribution: through its parameter if it is still conditional"""
+    out = {}
+    try:
+        cv = list(o.get_conditioning_variables())
+        out["cond_vars"] = sorted(cv)
+        c = o(**{cv[0]: 2.0}) if cv else o
+        x = np.arange(1, c.dim + 1, dtype=float) * 0.5
+    except Exception:
+        return {"probe": "raises"}
+    if hasattr(c, "gaussian"):
+        out["inner_logpdf"] = _try(lambda: c.gaussian.logpdf(x))
+        out["inner_mean"] = _try(lambda: c.gaussian.mean)
+        out["prox"] = _try(lambda: c.proximal(x - 1.0, 0.5)[0] if isinstance(c.proximal(x - 1.0, 0.5), tuple) else c.proximal(x - 1.0, 0.5))
+    else:
+        out["logpdf"] = _try(lambda: c.logpdf(x))
+        out["sample"] = _try(lambda: c.sample(rng=np.random.RandomState(7)))
+    return out
+
+
+def _mutate(o):
+    """the user assigns a parameter of a derived copy; returns the attribute name or None"""
+    for var in o.get_mutable_variables():
+        try:
+            val = getattr(o, var)
+        except Exception:
+            continue
+        if val is None or callable(val):
+            continue
+        try:
+            a = np.asarray(val, dtype=float)
+        except Exception:
+            continue
+        if a.ndim > 1:
+            continue
+        setattr(o, var, a + 1.0)
+        return var
+    return None
+
+
 class Pool:
     def __init__(self, R, sweeps):
         self.R = R
@@ -95,6 +150,11 @@ class Pool:
             if not F.parents:
                 fp["sample"] = _try(lambda: o.sample(rng=np.random.RandomState(7)))
                 fp["grad"] = _try(lambda: o.gradient(R.completion(1)[v]))
+        elif kind == "composite":
+            fp["name"] = _try(lambda: 0) and o.name
+            fp["dim"] = o.dim
+            fp["fd"] = bool(o.FD_enabled)
+            fp.update({"p_" + k: v for k, v in _probe_composite(o).items()})
         elif kind == "lik":
             v = e["v"]
             F = R.factors[v]
@@ -143,8 +203,15 @@ def replay_case(ctx, case, par, r, sweeps, seed):
     pool.add(J, "joint")
     for v, f in enumerate(factors, start=1):
         pool.add(f, "factor", v=v)
+    comps = _composites()
+    cnames = []
+    for c in range(case.get("k", 0)):
+        nm, mk = comps[(seed + c + len(case["hist"])) % len(comps)]
+        with quiet():
+            pool.add(mk(), "composite")
+        cnames.append(nm)
     vals0 = R.completion(3)
-    base = dict(kind="objhist", n=N, par=par, r=r, hist=case["hist"])
+    base = dict(kind="objhist", n=N, par=par, r=r, hist=case["hist"], composites=cnames)
     specidx = list(range(len(pool.objs)))       # spec object number (1-based) -> index in pool.objs
     for pos, (act, o, arg) in enumerate(case["hist"]):
         e = pool.objs[specidx[o - 1]]
@@ -159,6 +226,18 @@ def replay_case(ctx, case, par, r, sweeps, seed):
                     fx = dict(e["fixed"])
                     fx.update({v: vals0[v] for v in S})
                     new = (obj, "cond", fx, None, {})
+                elif act == "cond_factor":
+                    cv = list(e["obj"].get_conditioning_variables())
+                    if not cv:
+                        return
+                    new = (e["obj"](**{cv[0]: 3.0}), "composite", {}, None, {})
+                elif act == "mutate_copy":
+                    tgt = e["obj"]
+                    if e["kind"] not in ("factor", "composite") or not hasattr(tgt, "get_mutable_variables"):
+                        return
+                    if _mutate(tgt) is None:
+                        return
+                    e["fp"] = pool.fingerprint(e)        # this object was changed deliberately; all others must be unchanged
                 elif act == "to_likelihood":
                     new = (e["obj"].to_likelihood(vals0[e["v"]]), "lik", {}, e["v"], {})
                 elif act == "copy_enable_fd":
@@ -209,7 +288,7 @@ def replay_case(ctx, case, par, r, sweeps, seed):
             ctx.observations.setdefault("actions_refused", {}).setdefault(act, 0)
             ctx.observations["actions_refused"][act] += 1
             new = None
-            if act in ("condition", "to_likelihood", "copy_enable_fd", "apply_model"):
+            if act in ("condition", "to_likelihood", "copy_enable_fd", "apply_model", "cond_factor", "mutate_copy"):
                 return       # the behaviour cannot be continued (the spec object does not exist); C01 judges refusals
         if new is not None:
             obj, kind, fixed, v, extra = new
@@ -243,7 +322,7 @@ def run(ctx):
     if ctx.tier == "thorough":
         r2 = ctx.tlc("ObjHistory", cfg="ObjHistory.thorough.cfg", workers=16, timeout=1500)
         ctx.model_must_hold(r2, "ObjHistory.thorough")
-    for cfg in ("dev_const", "dev_fd"):
+    for cfg in ("dev_const", "dev_fd", "dev_inner"):
         r = ctx.tlc("ObjHistory", cfg="ObjHistory.%s.cfg" % cfg, workers=4, expect_violation=True)
         if r.ok or r.violated not in ("OriginalsClean", "Frame"):
             raise MachineryError("deviation %s did not violate the frame condition" % cfg)
@@ -263,7 +342,7 @@ def run(ctx):
         ctx.case(("objhist", str(par), r, str(c["hist"])))
         replay_case(ctx, c, par, r, sweeps if i % 7 == 0 else 5, 9000 + ctx.seed)
     need = {"action/condition", "action/to_likelihood", "action/copy_enable_fd", "action/apply_model", "action/logd",
-            "action/gradient", "action/sample", "action/run_sampler", "action/gibbs"}
+            "action/gradient", "action/sample", "action/run_sampler", "action/gibbs", "action/cond_factor", "action/mutate_copy"}
     if not need <= set(ctx.facets):
         raise MachineryError("vacuous replay: actions never exercised: %s" % sorted(need - set(ctx.facets)))
     ctx.sample({"behaviour": plan[0]})
